@@ -466,38 +466,46 @@ where
         // writing the trailer generates another id for the info dictionary
         trailer.size = (self.refs.len() + 2) as _;
         let trailer_dict = trailer.to_dict(self)?;
-        
-        let xref_promise = self.promise::<Stream<XRefInfo>>();
+
+        // Everything is serialised into `out` and the new cross-reference table is built on a copy,
+        // so that a failure (e.g. an object that cannot be written) leaves the storage as it was.
+        let mut out = Vec::new();
+        let mut refs = self.refs.clone();
+        // offsets are counted from the header, which need not be at the start of the file
+        let base = self.backend.len() - self.start_offset;
 
         let mut changes: Vec<_> = self.changes.iter().collect();
         changes.sort_unstable_by_key(|&(id, _)| id);
 
         for &(&id, &(ref primitive, gen)) in changes.iter() {
-            // offsets are counted from the header, which need not be at the start of the file
-            let pos = self.backend.len() - self.start_offset;
-            self.refs.set(id, XRef::Raw { pos: pos as _, gen_nr: gen });
-            writeln!(self.backend, "{} {} obj", id, gen)?;
-            primitive.serialize(&mut self.backend)?;
-            writeln!(self.backend, "\nendobj")?;
+            let pos = base + out.len();
+            refs.set(id, XRef::Raw { pos: pos as _, gen_nr: gen });
+            writeln!(out, "{} {} obj", id, gen)?;
+            primitive.serialize(&mut out)?;
+            writeln!(out, "\nendobj")?;
         }
 
-        let xref_pos = self.backend.len() - self.start_offset;
-        self.refs.set(xref_promise.get_inner().id, XRef::Raw { pos: xref_pos, gen_nr: 0 });
+        let xref_pos = base + out.len();
+        let xref_id = refs.len() as u64;
+        refs.push(XRef::Raw { pos: xref_pos, gen_nr: 0 });
         // only write up to the xref stream obj id
-        let stream = self.refs.write_stream(xref_promise.get_inner().id as usize + 1)?;
+        let stream = refs.write_stream(xref_id as usize + 1)?;
 
-        writeln!(self.backend, "{} {} obj", xref_promise.get_inner().id, 0)?;
+        writeln!(out, "{} {} obj", xref_id, 0)?;
         let mut xref_and_trailer = stream.to_pdf_stream(&mut NoUpdate)?;
         for (k, v) in trailer_dict.iter() {
             xref_and_trailer.info.insert(k.clone(), v.clone());
         }
 
-        xref_and_trailer.serialize(&mut self.backend)?;
-        writeln!(self.backend, "endobj")?;
+        xref_and_trailer.serialize(&mut out)?;
+        writeln!(out, "endobj")?;
+        write!(out, "\nstartxref\n{}\n%%EOF", xref_pos)?;
+        let xref_object = Primitive::Stream(stream.to_pdf_stream(&mut NoUpdate)?);
 
-        let _ = self.fulfill(xref_promise, stream)?;
-
-        write!(self.backend, "\nstartxref\n{}\n%%EOF", xref_pos).unwrap();
+        // nothing can fail from here on
+        self.backend.extend_from_slice(&out);
+        self.refs = refs;
+        self.changes.insert(xref_id, (xref_object, 0));
 
         // update trailer which may have change now.
         self.cache.clear();
